@@ -409,8 +409,13 @@ class PymbolicToASTMapper(CachedMapper):
             raise NotImplementedError("Non-float nan not implemented")
 
     def map_slice(self, expr: p.Slice) -> ast.expr:
-        return ast.Slice(*[self.rec(child)
-                           for child in expr.children])
+        def none_or_rec(x):
+            # omitted parts (as in a[:n]) are None
+            return None if x is None else self.rec(x)
+
+        return ast.Slice(none_or_rec(expr.start),
+                         none_or_rec(expr.stop),
+                         none_or_rec(expr.step))
 
     def map_numpy_array(self, expr) -> ast.expr:
         raise NotImplementedError
